@@ -142,7 +142,8 @@ class Pool:
         lock = threading.Lock()
         state = {"k": 0}
 
-        def loop(w):
+        def loop(widx, w):
+            seq = 0
             while True:
                 with lock:
                     if stop() or state["k"] >= limit:
@@ -151,10 +152,17 @@ class Pool:
                     state["k"] += 1
                     req = make_req(k)
                 res = w.request(req)
+                # which interpreter ran it and as its how-manyeth run: the process history of a run
+                # (needed to replay violations caused by process-global state left by earlier runs)
+                if res.get("outcome") == "harness_error" and "worker died" in str(res.get("detail")):
+                    seq = -1  # a new interpreter was started
+                res["_worker"] = widx
+                res["_wseq"] = seq
+                seq += 1
                 with lock:
                     out.append((k, req, res))
 
-        ts = [threading.Thread(target=loop, args=(w,)) for w in self.workers]
+        ts = [threading.Thread(target=loop, args=(i, w)) for i, w in enumerate(self.workers)]
         for t in ts:
             t.start()
         for t in ts:
@@ -171,6 +179,15 @@ class Pool:
 
     def __exit__(self, *a):
         self.close()
+
+
+def run_fresh_sequence(reqs, hashseed="0", scratch=None):
+    """Run several requests one after the other in ONE brand-new interpreter; returns all results."""
+    w = Worker(hashseed, scratch)
+    try:
+        return [w.request(r) for r in reqs]
+    finally:
+        w.close()
 
 
 def run_fresh(req, hashseed="0", scratch=None):
